@@ -270,4 +270,71 @@ theorem C08_aeaPhi1z_fixed (e phi : ℝ) (he : 1.0e-7 < e) (he1 : e < 1) :
     mul_div_cancel_left₀ _ hne
   rw [this]; ring
 
+/-! ## Exact inverse of a spherical conic -/
+
+theorem arg_polar (r θ : ℝ) (hr : 0 < r) (h1 : -π < θ) (h2 : θ ≤ π) :
+    Complex.arg ⟨r * cos θ, r * sin θ⟩ = θ := by
+  have h := Complex.arg_mul_cos_add_sin_mul_I hr (θ := θ) ⟨h1, h2⟩
+  have e : (⟨r * cos θ, r * sin θ⟩ : ℂ) = (r : ℂ) * (Complex.cos θ + Complex.sin θ * Complex.I) := by
+    apply Complex.ext <;>
+      simp [Complex.cos_ofReal_re, Complex.sin_ofReal_re, Complex.cos_ofReal_im, Complex.sin_ofReal_im]
+  rw [e]; exact h
+
+theorem lit_zero : (0.0 : ℝ) = 0 := by norm_num
+
+theorem sqrt_polar (r θ : ℝ) (hr : 0 < r) : sqrt (r * sin θ * (r * sin θ) + r * cos θ * (r * cos θ)) = r := by
+  rw [show r * sin θ * (r * sin θ) + r * cos θ * (r * cos θ) = r ^ 2 by nlinarith [sin_sq_add_cos_sq θ]]
+  exact Real.sqrt_sq hr.le
+
+theorem adjustLat_id {x : ℝ} (h : |x| < π / 2) : adjustLat x = x := by
+  simp [adjustLat, halfPi_real, h]
+
+/-- **eqdc_sphere_inv**: spherical equidistant conic, north cone (`ns > 0`): inverse(forward(λ, φ)) =
+(λ, φ) for |φ| < π/2 below the apex (`φ < g`), `|λ|, |λ−λ₀| ≤ sPi`, `ns·(λ−λ₀) ∈ (−π, π]`. -/
+theorem C08_eqdc_sphere_inv (c : EqdcC ℝ) (hs : c.sr.sphere = true) (ha : 0 < c.sr.a) (hn : 0 < c.ns)
+    (lon lat : ℝ) (hlat : |lat| < π / 2) (hg : lat < c.g) (hlon : |lon| ≤ sPi)
+    (hdl : |lon - c.sr.long0| ≤ sPi) (h1 : -π < c.ns * (lon - c.sr.long0)) (h2 : c.ns * (lon - c.sr.long0) ≤ π) :
+    (fwdEqdc c lon lat).bind (fun q => invEqdc c q.1 q.2) = .ok (lon, lat) := by
+  have hr : 0 < c.sr.a * (c.g - lat) := mul_pos ha (by linarith)
+  have hsq := sqrt_polar (c.sr.a * (c.g - lat)) (c.ns * (lon - c.sr.long0)) hr
+  have harg := arg_polar (c.sr.a * (c.g - lat)) (c.ns * (lon - c.sr.long0)) hr h1 h2
+  simp only [fwdEqdc, invEqdc, hs, if_true, adjustLon_id hdl, Except.bind, bind, pure, Except.pure,
+    ge_real, ne_real, sin_real, cos_real, sqrt_real, atan2_real, lit_zero, hn.le, decide_true, lit_one]
+  have ex : c.sr.x0 + c.sr.a * (c.g - lat) * sin (c.ns * (lon - c.sr.long0)) - c.sr.x0
+      = c.sr.a * (c.g - lat) * sin (c.ns * (lon - c.sr.long0)) := by ring
+  have ey : c.rh - (c.sr.y0 + c.rh - c.sr.a * (c.g - lat) * cos (c.ns * (lon - c.sr.long0))) + c.sr.y0
+      = c.sr.a * (c.g - lat) * cos (c.ns * (lon - c.sr.long0)) := by ring
+  simp only [ex, ey, hsq, one_mul, harg, hr.ne', decide_false, Bool.not_false, if_true, lit_zero]
+  have e1 : c.sr.long0 + c.ns * (lon - c.sr.long0) / c.ns = lon := by field_simp; ring
+  have e2 : c.g - c.sr.a * (c.g - lat) / c.sr.a = lat := by field_simp; ring
+  rw [e1, e2, adjustLon_id hlon, adjustLat_id hlat]
+
+/-- **aea_sphere_inv**: spherical Albers (`e3 ≤ 1e-7`, so `qsfnz = 2 sin φ`), north cone (`ns0 > 0`):
+inverse(forward(λ, φ)) = (λ, φ) for |φ| ≤ π/2 with positive cone radius (`c − 2 ns0 sin φ > 0`),
+`|λ|, |λ−λ₀| ≤ sPi`, `ns0·(λ−λ₀) ∈ (−π, π]`. -/
+theorem C08_aea_sphere_inv (k : AeaC ℝ) (hs : k.sr.sphere = true) (he : k.e3 ≤ 1.0e-7) (ha : 0 < k.sr.a)
+    (hn : 0 < k.ns0) (lon lat : ℝ) (hlat : |lat| ≤ π / 2) (hpos : 0 < k.c - k.ns0 * (2 * sin lat))
+    (hlon : |lon| ≤ sPi) (hdl : |lon - k.sr.long0| ≤ sPi)
+    (h1 : -π < k.ns0 * (lon - k.sr.long0)) (h2 : k.ns0 * (lon - k.sr.long0) ≤ π) :
+    (fwdAea k lon lat).bind (fun q => invAea k q.1 q.2) = .ok (lon, lat) := by
+  obtain ⟨hl1, hl2⟩ := abs_le.mp hlat
+  set R := k.sr.a * sqrt (k.c - k.ns0 * (2 * sin lat)) / k.ns0 with hR
+  have hsqrt : 0 < sqrt (k.c - k.ns0 * (2 * sin lat)) := Real.sqrt_pos.mpr hpos
+  have hr : 0 < R := div_pos (mul_pos ha hsqrt) hn
+  have hsq := sqrt_polar R (k.ns0 * (lon - k.sr.long0)) hr
+  have harg := arg_polar R (k.ns0 * (lon - k.sr.long0)) hr h1 h2
+  have hq : ¬ ((1.0e-7 : ℝ) < k.e3) := not_lt.mpr he
+  simp only [fwdAea, invAea, hs, if_true, adjustLon_id hdl, Except.bind, bind, pure, Except.pure,
+    ge_real, ne_real, gt_real, sin_real, cos_real, sqrt_real, atan2_real, asin_real, qsfnz, hq, lit_zero,
+    hn.le, decide_true, decide_false, lit_one, lit_two, if_false, Bool.false_eq_true, ← hR]
+  have ex : R * sin (k.ns0 * (lon - k.sr.long0)) + k.sr.x0 - k.sr.x0 = R * sin (k.ns0 * (lon - k.sr.long0)) := by ring
+  have ey : k.rh - (k.rh - R * cos (k.ns0 * (lon - k.sr.long0)) + k.sr.y0) + k.sr.y0
+      = R * cos (k.ns0 * (lon - k.sr.long0)) := by ring
+  simp only [ex, ey, hsq, one_mul, harg, hr.ne', decide_false, Bool.not_false, if_true, lit_zero]
+  have e1 : k.ns0 * (lon - k.sr.long0) / k.ns0 + k.sr.long0 = lon := by field_simp; ring
+  have e2 : (k.c - R * k.ns0 / k.sr.a * (R * k.ns0 / k.sr.a)) / (2 * k.ns0) = sin lat := by
+    have : R * k.ns0 / k.sr.a = sqrt (k.c - k.ns0 * (2 * sin lat)) := by rw [hR]; field_simp
+    rw [this, Real.mul_self_sqrt hpos.le]; field_simp; ring
+  rw [e1, e2, adjustLon_id hlon, Real.arcsin_sin hl1 hl2]
+
 end GeomV.C08
